@@ -1,11 +1,39 @@
-"""C06 - see DESIGN.md section 6."""
-from .. import core
+"""C06 - generalized Rush-Larsen step follows the exponential-integrator formula, guarded."""
+from .. import core, schemecorpus
 from . import structural
+from .c01 import shape_of
+
+
+def run_scheme_corpus(chk, pid, tags, backend="numpy", fams=None):
+    fams = fams or ([1, 3, 4] if chk.tier == "quick" else [1, 2, 3, 4])
+    results, header, recs = schemecorpus.generate(fams, chk.nproc)
+    for r in results:
+        chk.add_tlc(r)
+    if header is None or not recs:
+        raise core.MachineryFailure("MC_Scheme emitted nothing")
+    stats, bad = schemecorpus.replay(recs, header, backend, chk.nproc, seed=chk.seed)
+    chk.replayed += stats["templates"]
+    chk.extra.setdefault("scheme_corpus", []).append({"backend": backend, "families": fams, **stats})
+    if stats["compared"] == 0:
+        raise core.MachineryFailure("scheme corpus: nothing compared")
+    chk.sample({"rate_of_x": " ".join(recs[0]["toks"]), "delta": recs[0]["delta"],
+                "grid_point <<x,a,dt>> = <<1,1,1>>": recs[0]["grid"]["<<1, 1, 1>>"]})
+    for b in bad:
+        if b["tag"] not in tags:
+            continue
+        sig = f"{pid}:{backend}:{b['tag']}:{shape_of(b['text'])}:delta={b['delta']}"
+        if b["kind"] == "error":
+            what = f"{backend}: generating schemes for rate `{b['text']}` raised {b['exception']}: {b['message'][:140]}"
+        else:
+            what = (f"{backend} {b['tag']} for dx_dt = `{b['text']}` (delta={b['delta']}, x={b['x']}, a={b['a']}, dt={b['dt']}, "
+                    f"f={b['f']}, g={b['g']}) returned {b['got']!r}, the formula gives {b['want']!r}")
+        chk.violation(sig, b, what)
 
 
 def main(chk: core.Check, replay):
     if replay:
         return core.replay_generic(chk, replay)
+    run_scheme_corpus(chk, "C06", {"generalized_rush_larsen", "generate"})
     structural.run(chk, "C06")
 
 
